@@ -258,7 +258,9 @@ def read_cgsmiles(pattern):
         # if the branch ends we reset the anchor
         # and set branching False unless we are in
         # a nested branch
-        if stop <= len(pattern) and branch_stop:
+        # several branches can end after the same residue
+        # as in '...[#residue]))'; each of them is closed
+        while stop <= len(pattern) and branch_stop:
             branching = False
             prev_node = branch_anchor.pop()
             if branch_anchor:
@@ -330,6 +332,10 @@ def read_cgsmiles(pattern):
             # when all nested branches are completed
             if len(branch_anchor) == 0:
                 recipes = defaultdict(list)
+            # look for a directly following branch closure
+            stop = eon_a + 1
+            branch_stop = _find_next_character(pattern, ['['], stop) >\
+                          _find_next_character(pattern, [')'], stop)
 
     # raise some errors for strange stuff
     if cycle:
